@@ -31,6 +31,7 @@ func init() {
 			{ID: "C13.R8", Floor: 1, Run: layoutCountFromCount, Text: "the layout count is rounded up from the registry's count (= C16.R12)"},
 			{ID: "C13.R9", Floor: 1, Run: compileKeyedByWorld, Text: "the compilation of a generic filter is keyed by world (= C18.R23): the same operations on two fresh worlds give the same results, whatever was done before"},
 			{ID: "C13.FX", Floor: 1, Run: c13fixture, Text: "fixture control: on checker/testdata/fixture the three rules report exactly the functions named bad* for them and none named ok*"},
+			{ID: "C13.R10", Floor: 8, Run: c14r1, Text: "component arguments escape (= C14.R1): a value read back never depends on stack reuse"},
 		},
 	})
 	register(&Property{
@@ -49,6 +50,7 @@ func init() {
 			{ID: "C19.R8", Floor: 1, Run: compileKeyedByWorld, Text: "the compilation of a generic filter is keyed by world (= C18.R23): using a filter on one world does not change what it selects on another"},
 			{ID: "C19.R9", Floor: 10, Run: compiledFiltersFresh, Text: "handed-out filters do not point into re-compiled state (= C18.R24): using a generic filter on a second world does not change the selection of a query open on the first"},
 			{ID: "C19.FX", Floor: 1, Run: c19fixture, Text: "fixture control: on checker/testdata/fixture R1/R2 report exactly the bad* functions for them"},
+			{ID: "C19.R10", Floor: 1, Run: compileRecomputes, Text: "a compiled generic filter carries nothing over from the world it was compiled for before (= C18.R27)"},
 		},
 	})
 }
